@@ -17,6 +17,11 @@ import (
 	banktypes "github.com/cosmos/cosmos-sdk/x/bank/types"
 	govv1 "github.com/cosmos/cosmos-sdk/x/gov/types/v1"
 	stakingtypes "github.com/cosmos/cosmos-sdk/x/staking/types"
+	channeltypes "github.com/cosmos/ibc-go/v8/modules/core/04-channel/types"
+	ibcexported "github.com/cosmos/ibc-go/v8/modules/core/exported"
+	ibctypes "github.com/cosmos/ibc-go/v8/modules/core/types"
+
+	band "github.com/bandprotocol/chain/v3/app"
 	"github.com/cosmos/gogoproto/proto"
 
 	"github.com/bandprotocol/chain/v3/pkg/tss"
@@ -151,7 +156,8 @@ type world struct {
 	seen         map[string]bool
 	propsInBlock uint64
 	// bookkeeping
-	props map[uint64]int // proposal id -> message type index
+	props    map[uint64]int // proposal id -> message type index
+	propMsgs map[uint64]sdk.Msg
 }
 
 func uband(n int64) sdk.Coins { return sdk.NewCoins(sdk.NewInt64Coin("uband", n)) }
@@ -216,7 +222,7 @@ func (w *world) buildConfig() sim.Config {
 		groups = append(groups, tssworld.NewGroup(2, 2, []string{addr(uDelA), addr(uDelB)}, "c02adv-g2"))
 	}
 	w.wallet = tssworld.NewWallet()
-	initDE := 5
+	initDE := 7
 	tssworld.GenesisFor(&cfg, groups, 0, w.wallet, initDE)
 	for _, g := range groups {
 		w.privs[uint64(g.ID)] = map[string]tss.Scalar{}
@@ -229,6 +235,17 @@ func (w *world) buildConfig() sim.Config {
 		sigs = append(sigs, feedstypes.Signal{ID: signalIDs[i], Power: int64(60_000 - 1000*i)})
 	}
 	cfg.FeedsVotes = []feedstypes.Vote{{Voter: addr(uVoter), Signals: sigs}}
+	// an OPEN channel on the port of the IBC tunnel created in set-up (tunnel 2), so that MsgUpdateRoute can succeed
+	cfg.ExtraGenesis = func(gs band.GenesisState, app *band.BandApp) {
+		var ig ibctypes.GenesisState
+		app.AppCodec().MustUnmarshalJSON(gs[ibcexported.ModuleName], &ig)
+		ig.ChannelGenesis.Channels = append(ig.ChannelGenesis.Channels, channeltypes.IdentifiedChannel{
+			State: channeltypes.OPEN, Ordering: channeltypes.UNORDERED, Counterparty: channeltypes.NewCounterparty("consumer", "channel-7"),
+			ConnectionHops: []string{"connection-0"}, Version: "tunnel-1", PortId: "tunnel.2", ChannelId: "channel-0"})
+		ig.ChannelGenesis.SendSequences = append(ig.ChannelGenesis.SendSequences, channeltypes.NewPacketSequence("tunnel.2", "channel-0", 1))
+		ig.ChannelGenesis.NextChannelSequence = 1
+		gs[ibcexported.ModuleName] = app.AppCodec().MustMarshalJSON(&ig)
+	}
 	return cfg
 }
 
@@ -447,20 +464,22 @@ func (w *world) tunnelIDs(filter func(tunneltypes.Tunnel) bool) []tunneltypes.Tu
 	return out
 }
 
-func (w *world) pickTunnel(prefer func(tunneltypes.Tunnel) bool, s int) (tunneltypes.Tunnel, *sim.Account) {
+// pickTunnel returns a tunnel satisfying prefer when there is one (hit), else any tunnel.
+func (w *world) pickTunnel(prefer func(tunneltypes.Tunnel) bool, s int) (tn tunneltypes.Tunnel, creator *sim.Account, hit bool) {
 	ts := w.tunnelIDs(prefer)
+	hit = len(ts) > 0
 	if len(ts) == 0 {
 		ts = w.tunnelIDs(nil)
 	}
 	if len(ts) == 0 {
-		return tunneltypes.Tunnel{ID: 1, Creator: w.u[uCreator].Addr.String()}, w.u[uCreator]
+		return tunneltypes.Tunnel{ID: 1, Creator: w.u[uCreator].Addr.String()}, w.u[uCreator], false
 	}
 	t := pickOf(ts, s)
 	a := w.acct(t.Creator)
 	if a == nil {
 		a = w.u[uCreator]
 	}
-	return t, a
+	return t, a, hit
 }
 
 func (w *world) groupsIn(status tsstypes.GroupStatus) []tsstypes.Group {
@@ -718,8 +737,9 @@ func (w *world) template(ti int, t advTx) []built {
 		v := pickOf(ch.Vals, s0)
 		if len(inact) > 0 {
 			v = pickOf(inact, s0)
+			return one(v, oracletypes.NewMsgActivate(v.Val))
 		}
-		return one(v, oracletypes.NewMsgActivate(v.Val))
+		return fb(v, oracletypes.NewMsgActivate(v.Val))
 	case "/band.oracle.v1.MsgUpdateParams":
 		p := ch.App.OracleKeeper.GetParams(ctx)
 		m := &oracletypes.MsgUpdateParams{Authority: sim.GovAuthority(), Params: p}
@@ -836,6 +856,9 @@ func (w *world) template(ti int, t advTx) []built {
 			return nil
 		}
 		m.Memo = pickOf([]string{"", "memo"}, s2)
+		if content.IsInternal() {
+			return fb(u[uReq], m) // module-internal orders are refused by design
+		}
 		return one(u[uReq], m)
 	case "/band.bandtss.v1beta1.MsgActivate":
 		ms := ch.App.BandtssKeeper.GetMembers(ctx)
@@ -855,8 +878,9 @@ func (w *world) template(ti int, t advTx) []built {
 		m := pickOf(known, s0)
 		if len(inact) > 0 {
 			m = pickOf(inact, s0)
+			return one(w.acct(m.Address), bandtsstypes.NewMsgActivate(m.Address, m.GroupID))
 		}
-		return one(w.acct(m.Address), bandtsstypes.NewMsgActivate(m.Address, m.GroupID))
+		return fb(w.acct(m.Address), bandtsstypes.NewMsgActivate(m.Address, m.GroupID))
 	case "/band.bandtss.v1beta1.MsgUpdateParams":
 		m := &bandtsstypes.MsgUpdateParams{Authority: sim.GovAuthority(), Params: ch.App.BandtssKeeper.GetParams(ctx)}
 		tweak(m, s0)
@@ -891,13 +915,16 @@ func (w *world) template(ti int, t advTx) []built {
 
 	// ---- feeds ----
 	case "/band.feeds.v1beta1.MsgVote":
-		a := pickOf([]*sim.Account{u[uDelA], u[uDelB], u[uDelA], ch.Vals[0], u[uVoter]}, s0)
+		a := pickOf([]*sim.Account{u[uDelA], u[uDelB], u[uDelA], ch.Vals[0], ch.Vals[1], u[uOut]}, s0)
 		pw, err := ch.App.RestakeKeeper.GetTotalPower(ctx, a.Addr)
 		power := int64(1000)
 		if err == nil && pw.IsInt64() && pw.IsPositive() {
 			power = pw.Int64()
 		}
 		k := 1 + s1%3
+		if mx := ch.App.FeedsKeeper.GetParams(ctx).MaxCurrentFeeds; uint64(k) > mx && mx > 0 {
+			k = int(mx)
+		}
 		var sigs []feedstypes.Signal
 		for _, id := range w.signals(k, s2) {
 			if p := power / int64(k); p > 0 {
@@ -906,9 +933,12 @@ func (w *world) template(ti int, t advTx) []built {
 		}
 		return one(a, feedstypes.NewMsgVote(a.Addr.String(), sigs))
 	case "/band.feeds.v1beta1.MsgSubmitSignalPrices":
-		vals := []*sim.Account{pickOf(ch.Vals, s0)}
-		if t.B {
-			vals = ch.Vals
+		vals := ch.Vals
+		if av := w.activeVals(); len(av) > 0 {
+			vals = av
+		}
+		if !t.B {
+			vals = []*sim.Account{pickOf(vals, s0)}
 		}
 		var out []built
 		cur := ch.App.FeedsKeeper.GetCurrentFeeds(ctx)
@@ -965,29 +995,41 @@ func (w *world) template(ti int, t advTx) []built {
 		}
 		return one(creator, m)
 	case "/band.tunnel.v1beta1.MsgUpdateRoute":
-		tn, a := w.pickTunnel(func(t tunneltypes.Tunnel) bool {
-			return t.Route != nil && strings.HasSuffix(t.Route.TypeUrl, "IBCRoute")
+		tn, a, hit := w.pickTunnel(func(t tunneltypes.Tunnel) bool {
+			return t.Route != nil && strings.HasSuffix(t.Route.TypeUrl, "IBCRoute") && t.ID == 2
 		}, s0)
 		m, err := tunneltypes.NewMsgUpdateIBCRoute(tn.ID, "channel-0", a.Addr.String())
 		if err != nil {
 			return nil
 		}
+		if !hit {
+			return fb(a, m)
+		}
 		return one(a, m)
 	case "/band.tunnel.v1beta1.MsgUpdateSignalsAndInterval":
 		p := ch.App.TunnelKeeper.GetParams(ctx)
-		tn, a := w.pickTunnel(nil, s0)
+		tn, a, _ := w.pickTunnel(nil, s0)
 		return one(a, tunneltypes.NewMsgUpdateSignalsAndInterval(tn.ID, w.deviations(1+s1%4, s1/4), clampU(uint64(1+s2%40), p.MinInterval, p.MaxInterval), a.Addr.String()))
 	case "/band.tunnel.v1beta1.MsgActivate":
-		tn, a := w.pickTunnel(func(t tunneltypes.Tunnel) bool { return !t.IsActive }, s0)
+		tn, a, hit := w.pickTunnel(func(t tunneltypes.Tunnel) bool { return !t.IsActive }, s0)
+		if !hit {
+			return fb(a, tunneltypes.NewMsgActivate(tn.ID, a.Addr.String()))
+		}
 		return one(a, tunneltypes.NewMsgActivate(tn.ID, a.Addr.String()))
 	case "/band.tunnel.v1beta1.MsgDeactivate":
-		tn, a := w.pickTunnel(func(t tunneltypes.Tunnel) bool { return t.IsActive }, s0)
+		tn, a, hit := w.pickTunnel(func(t tunneltypes.Tunnel) bool { return t.IsActive }, s0)
+		if !hit {
+			return fb(a, tunneltypes.NewMsgDeactivate(tn.ID, a.Addr.String()))
+		}
 		return one(a, tunneltypes.NewMsgDeactivate(tn.ID, a.Addr.String()))
 	case "/band.tunnel.v1beta1.MsgTriggerTunnel":
-		tn, a := w.pickTunnel(func(t tunneltypes.Tunnel) bool { return t.IsActive }, s0)
+		tn, a, hit := w.pickTunnel(func(t tunneltypes.Tunnel) bool { return t.IsActive }, s0)
+		if !hit {
+			return fb(a, tunneltypes.NewMsgTriggerTunnel(tn.ID, a.Addr.String()))
+		}
 		return one(a, tunneltypes.NewMsgTriggerTunnel(tn.ID, a.Addr.String()))
 	case "/band.tunnel.v1beta1.MsgDepositToTunnel":
-		tn, _ := w.pickTunnel(nil, s0)
+		tn, _, _ := w.pickTunnel(nil, s0)
 		a := pickOf([]*sim.Account{u[uCreator], u[uReq], u[uOut]}, s1)
 		return one(a, tunneltypes.NewMsgDepositToTunnel(tn.ID, uband(int64(1+s2%30)), a.Addr.String()))
 	case "/band.tunnel.v1beta1.MsgWithdrawFromTunnel":
@@ -1046,7 +1088,7 @@ func (w *world) template(ti int, t advTx) []built {
 	case "/band.globalfee.v1beta1.MsgUpdateParams":
 		p := ch.App.GlobalFeeKeeper.GetParams(ctx)
 		p.MinimumGasPrices = pickOf([]sdk.DecCoins{
-			{}, {sdk.NewDecCoinFromDec("uband", math.LegacyNewDecWithPrec(25, 4))}, {sdk.NewDecCoinFromDec("uband", math.LegacyZeroDec())},
+			{}, {sdk.NewDecCoinFromDec("uband", math.LegacyNewDecWithPrec(25, 4))}, {sdk.NewDecCoinFromDec("uband", math.LegacyNewDecWithPrec(1, 18))},
 			{sdk.NewDecCoinFromDec("uatom", math.LegacyOneDec()), sdk.NewDecCoinFromDec("uband", math.LegacyNewDec(1000))}}, s0)
 		return one(nil, &globalfeetypes.MsgUpdateParams{Authority: sim.GovAuthority(), Params: p})
 	}
